@@ -184,6 +184,14 @@ func (x *Exec) sprintf(s *State, site ssa.Instruction, format *Term, argv Val) *
 					piece = Ite(Ge(t, Int(0)), StrFromInt(t), Concat(Str("-"), StrFromInt(Sub(Int(0), t))))
 				case t.S == SBool && (verb == "%v" || verb == "%t"):
 					piece = Ite(t, Str("true"), Str("false"))
+				case t.S == SReal && (verb == "%v" || verb == "%f"):
+					// a float rendered by %v / %f: a deterministic function of the value;
+					// %v is the shortest text that ParseFloat reads back as the same value
+					piece = UF("ufs_fmt_"+verb[1:], SString, t)
+					if verb == "%v" {
+						s.assume(UF("parseFloatOk", SBool, piece))
+						s.assume(Eq(UF("parseFloat", SReal, piece), t))
+					}
 				case t.S == SInt && isIntType(iv.Dyn) && regexp.MustCompile(`^%[0-9]+d$`).MatchString(verb):
 					// width-padded decimal: a deterministic function of the value
 					// (uninterpreted), at least `width` long, ending in the digits
